@@ -132,3 +132,38 @@ CHECKS["C08"] = dict(
     bound_thorough="single rewrites on all 4 seeds with all 19 unknown-member values per position and all permutations of maps with <= 4 members",
     assumptions=[],
 )
+
+CHECKS["C04"] = dict(
+    level="exploration", engine="E-VAL",
+    technique="exhaustive configuration enumeration on the implementation: all 2^18 query-response hint masks and all 2^17 signature hint masks, rr x other masks and cross terms, output parsed by the independent reader",
+    level_text="For every enumerated hint configuration a block with two fully populated query/responses sharing table values, a repeated address event and two malformed messages is exported and parsed independently: every member present must have its hint bit set, every table entry must be reachable from a stored item, AEC/MM arrays appear only when enabled, the preamble states exactly the configured masks, and the stored block equals the hint-filtered expectation of the reference model (so enabled fields are not lost either).",
+    level_note="Trusted: hint-bit table written from RFC 8618 (response question list shares bit 11 - library choice stated in DESIGN 3); ref/ parser. The full cross product 2^18 x 2^17 is covered up to <= 1 (quick) / <= 2 (thorough) deviating bits per side; each guard in the code tests one bit and one field.",
+    stages=[dict(harness="val", variant="asan", args=["--mode", "hints"])],
+    rule="mask enumeration: [0,2^18) x {all sig}, {all qr} x [0,2^17), 16 rr/other combinations, cross terms of masks with <= k cleared or <= k set bits on each side; a configuration is non-trivial unless both masks are 0; all distinct",
+    bound_quick="cross terms with <= 1 deviation per side x 4 rr/other combinations", bound_thorough="cross terms with <= 2 deviations per side x 16 rr/other combinations",
+    assumptions=["ASN, country code and RTT have no hint bit and are always stored"],
+)
+
+CHECKS["C09"] = dict(
+    level="exploration", engine="E-VAL",
+    technique="exhaustive configuration enumeration on the implementation: file preambles written by the exporter and read back by CdnsReader and by the independent reader",
+    level_text="Every enumerated FilePreamble (all 256x256 version pairs x private version {absent,0,255}; every subset of the 7 optional storage members x collection parameters {absent, present-empty, subsets}; integers on width boundaries; opcode/RR-type lists of length 0/1/3/300 with unassigned codes and duplicates; empty/ASCII/multi-byte UTF-8/300-byte texts; 1..8 parameter sets through all four construction paths) is written and compared member for member (absent != empty != default) with CdnsReader::m_file_preamble and with the independent interpretation of the bytes.",
+    level_note="Trusted: ref/ reader; own comparator via canonical dumps. The two-argument FilePreamble constructor ignoring its private_version argument is outside the property (object compared as it stands before writing).",
+    stages=[dict(harness="val", variant="asan", args=["--mode", "preamble"])],
+    rule="enumerated preamble specifications, each exported with one record and read back twice; all distinct and non-trivial",
+    bound_quick="versions: major 0..255 x minor step 5 (+ all minors for major 1); storage subsets 2^7 x collection {absent, empty, full, single members, all-but-one}", bound_thorough="versions exhaustive 256x256x3; 2^7 x (2^10+1) member subsets",
+    assumptions=["vector members of CollectionParameters cannot distinguish empty from absent in the API; both are treated as absent"],
+)
+
+CHECKS["C17"] = dict(
+    level="model_checking", engine="E-VAL",
+    technique="exhaustive grid enumeration of timestamp arithmetic against 128-bit reference arithmetic, plus explicit-state enumeration of record arrival orders through the real exporter",
+    level_text="(a) all pairs over a small exhaustive grid (rates 1,2,3,7,10,1000) and over the boundary product (rates 1,1e3,1e6,1e9; seconds 0,1,2^31-1,2^31,2^32-1,2^32,max-1,max; ticks 0,1,rate-1): offset exact, add-back exact and normalised, < and <= order by instant; every offset of {INT64_MIN, INT64_MIN+1, -2^32, -rate-1, -rate, -1, 0, 1, rate-1, rate, 2^32, INT64_MAX} on every grid point: refused exactly when the result would be negative or the rate is 0, refusal leaves the timestamp unchanged; UBSan armed. (b) every arrival order of up to 4 timed/untimed QR/MM/AEC records x time-offset hint on/off x MM hint on/off through the real exporter: every record time recovered exactly by both readers (hence earliest <= every stored time).",
+    level_note="Trusted: unsigned __int128 reference arithmetic, ref/ reader. Results >= 2^63 ticks are outside the stated range (only UB-freedom is required there).",
+    stages=[dict(harness="val", variant="asan", args=["--mode", "time"]),
+            dict(harness="hist", variant="plain", args=["--mode", "times"], prefix="blocks_")],
+    rule="grid points enumerated exhaustively; block histories: stateless DFS over 8 record kinds, every history of length <= D x 4 configurations",
+    bound_quick="block histories of length <= 4", bound_thorough="block histories of length <= 5",
+    assumptions=[],
+)
+ENGINES.append(dict(name="E-VAL", path="harness/val.cpp", serves_properties=["C04", "C09", "C17"], kind_free_text="exhaustive value/configuration grids against reference arithmetic and the independent reader"))
